@@ -9,7 +9,6 @@ import (
 	"path/filepath"
 	"sort"
 
-	"github.com/thomasjungblut/go-sstables/skiplist"
 	"github.com/thomasjungblut/go-sstables/sstables"
 )
 
@@ -17,6 +16,7 @@ type c08Case struct {
 	Tables [][]tblKV   `json:"tables"` // oldest first
 	Probes [][]byte    `json:"probes"`
 	Bounds [][2][]byte `json:"bounds"`
+	Rev bool `json:"rev,omitempty"` // tables, stack and merger use the reversed bytewise key order
 	// observations
 	Gets      []getOut  `json:"gets"`
 	All       scanOut   `json:"all"`
@@ -46,10 +46,20 @@ func (c *c08Case) Exec() {
 	dir := tmpDir("c08-")
 	defer os.RemoveAll(dir)
 	var readers []sstables.SSTableReaderI
+	topts := defaultTblOpts()
+	topts.Rev = c.Rev
+	kcmp := keyCmpFor(c.Rev)
+	ropts := func(d string) []sstables.ReadOption {
+		o := []sstables.ReadOption{sstables.ReadBasePath(d)}
+		if c.Rev {
+			o = append(o, sstables.ReadWithKeyComparator(kcmp), sstables.ReadIndexLoader(&sstables.SkipListIndexLoader{KeyComparator: kcmp, ReadBufferSize: 4096}))
+		}
+		return o
+	}
 	open := func() []sstables.SSTableReaderI {
 		var rs []sstables.SSTableReaderI
 		for i := range c.Tables {
-			r, err := sstables.NewSSTableReader(sstables.ReadBasePath(filepath.Join(dir, fmt.Sprintf("t%d", i))))
+			r, err := sstables.NewSSTableReader(ropts(filepath.Join(dir, fmt.Sprintf("t%d", i)))...)
 			must(err)
 			rs = append(rs, r)
 		}
@@ -58,7 +68,13 @@ func (c *c08Case) Exec() {
 	for i, t := range c.Tables {
 		d := filepath.Join(dir, fmt.Sprintf("t%d", i))
 		must(os.MkdirAll(d, 0755))
-		errs, err := writeTable(d, defaultTblOpts(), t)
+		if c.Rev {
+			t = append([]tblKV(nil), t...)
+			for a, b := 0, len(t)-1; a < b; a, b = a+1, b-1 {
+				t[a], t[b] = t[b], t[a]
+			}
+		}
+		errs, err := writeTable(d, topts, t)
 		must(err)
 		for _, e := range errs {
 			if e != "" {
@@ -68,7 +84,7 @@ func (c *c08Case) Exec() {
 		}
 	}
 	readers = open()
-	super := sstables.NewSuperSSTableReader(readers, skiplist.BytesComparator{})
+	super := sstables.NewSuperSSTableReader(readers, kcmp)
 	limit := 3
 	for _, t := range c.Tables {
 		limit += len(t)
@@ -110,7 +126,7 @@ func (c *c08Case) Exec() {
 		}
 		d := filepath.Join(dir, name)
 		must(os.MkdirAll(d, 0755))
-		w, err := sstables.NewSSTableStreamWriter(defaultTblOpts().writerOptions(d)...)
+		w, err := sstables.NewSSTableStreamWriter(topts.writerOptions(d)...)
 		must(err)
 		must(w.Open())
 		merr := f(its, w)
@@ -121,7 +137,7 @@ func (c *c08Case) Exec() {
 		if cerr != nil {
 			return scanOut{}, "Close:" + classifyErr(cerr)
 		}
-		r, err := sstables.NewSSTableReader(sstables.ReadBasePath(d))
+		r, err := sstables.NewSSTableReader(ropts(d)...)
 		if err != nil {
 			return scanOut{}, "Reopen:" + classifyErr(err)
 		}
@@ -129,7 +145,7 @@ func (c *c08Case) Exec() {
 		sc, err := r.Scan()
 		return drainTable(sc, err, limit), ""
 	}
-	m := sstables.NewSSTableMerger(skiplist.BytesComparator{})
+	m := sstables.NewSSTableMerger(kcmp)
 	c.Compact, c.CompErr = mergeInto("mc", func(its []sstables.SSTableMergeIteratorContext, w *sstables.SSTableStreamWriter) error {
 		return m.MergeCompact(its, w, sstables.ScanReduceLatestWins)
 	})
@@ -155,7 +171,8 @@ func (c *c08Case) union() []tblKV {
 	for _, kv := range m {
 		out = append(out, kv)
 	}
-	sort.Slice(out, func(i, j int) bool { return bytes.Compare(out[i].K, out[j].K) < 0 })
+	kcmp := keyCmpFor(c.Rev)
+	sort.Slice(out, func(i, j int) bool { return kcmp.Compare(out[i].K, out[j].K) < 0 })
 	return out
 }
 
@@ -174,6 +191,7 @@ func (c *c08Case) Oracle() (bool, string) {
 		return false, c.Fatal
 	}
 	u := c.union()
+	kcmp := keyCmpFor(c.Rev)
 	live := func(kv tblKV) bool { return !kv.Nil }
 	nonEmpty := func(kv tblKV) bool { return len(kv.val()) > 0 }
 	chk := func(name string, got scanOut, want []tblKV) (bool, string) {
@@ -217,19 +235,19 @@ func (c *c08Case) Oracle() (bool, string) {
 		} else if g.Err != "" || g.Nil != want.Nil || !bytes.Equal(g.V, want.val()) {
 			return false, fmt.Sprintf("Get(%x): not the newest value (err=%q)", p, g.Err)
 		}
-		if ok, m := chk(fmt.Sprintf("ScanStartingAt(%x)", p), c.Froms[i], filterKV(u, func(kv tblKV) bool { return live(kv) && bytes.Compare(kv.K, p) >= 0 })); !ok {
+		if ok, m := chk(fmt.Sprintf("ScanStartingAt(%x)", p), c.Froms[i], filterKV(u, func(kv tblKV) bool { return live(kv) && kcmp.Compare(kv.K, p) >= 0 })); !ok {
 			return false, m
 		}
 	}
 	for i, b := range c.Bounds {
-		if bytes.Compare(b[0], b[1]) > 0 {
+		if kcmp.Compare(b[0], b[1]) > 0 {
 			if c.Ranges[i].Err == "" {
 				return false, "ScanRange: lower > upper not rejected"
 			}
 			continue
 		}
 		if ok, m := chk(fmt.Sprintf("ScanRange(%x,%x)", b[0], b[1]), c.Ranges[i], filterKV(u, func(kv tblKV) bool {
-			return live(kv) && bytes.Compare(kv.K, b[0]) >= 0 && bytes.Compare(kv.K, b[1]) <= 0
+			return live(kv) && kcmp.Compare(kv.K, b[0]) >= 0 && kcmp.Compare(kv.K, b[1]) <= 0
 		})); !ok {
 			return false, m
 		}
@@ -255,7 +273,8 @@ func (c *c08Case) Oracle() (bool, string) {
 }
 
 func (c *c08Case) Sx() string {
-	if c.Fatal != "" {
+	if c.Fatal != "" || c.Rev { // the model's tables are in bytewise order: reversed-order cases are judged by the oracle
+
 		return ""
 	}
 	var tables, gets, froms, ranges []string
@@ -315,6 +334,9 @@ func (c *c08Case) Kind() string {
 	if c.Disjoint {
 		k += "/disjoint"
 	}
+	if c.Rev {
+		k += "/revcmp"
+	}
 	return k
 }
 
@@ -325,7 +347,7 @@ func genC08(r *rand.Rand, tier string) []Case {
 	}
 	var cases []Case
 	for i := 0; i < n; i++ {
-		c := &c08Case{Disjoint: i%4 == 3}
+		c := &c08Case{Disjoint: i%4 == 3, Rev: i%6 == 4}
 		nt := 1 + r.Intn(maxT)
 		universe := [][]byte{[]byte("a"), []byte("b"), []byte("c"), []byte("ab"), []byte("b\x00"), {0x91, 0x8d}, []byte("zz"), []byte("d"), []byte("e")}
 		if i%3 == 0 {
@@ -389,7 +411,7 @@ func init() {
 		ID: "C08", Num: 8,
 		Gen:  genC08,
 		New:  func() Case { return &c08Case{} },
-		Rule: "lists of 1..6 (thorough 12) real tables over a shared key universe (incl. the empty key in a third of the cases, keys that are prefixes of each other, marker bytes), values nil (tombstone) / empty / live, empty tables; stacked reader Get/Contains/Scan/ScanStartingAt/ScanRange, MergeCompact with both reductions into a real writer (read back), plain Merge for disjoint inputs. Non-trivial: >=2 non-empty tables.",
+		Rule: "lists of 1..6 (thorough 12) real tables over a shared key universe (incl. the empty key in a third of the cases, keys that are prefixes of each other, marker bytes), values nil (tombstone) / empty / live, empty tables; stacked reader Get/Contains/Scan/ScanStartingAt/ScanRange, every sixth case with a non-bytewise (reversed) key comparator in writer, index, stack and merger; MergeCompact with both reductions into a real writer (read back), plain Merge for disjoint inputs. Non-trivial: >=2 non-empty tables.",
 	})
 	_ = errors.New
 }
